@@ -130,7 +130,8 @@ def group_runs(g, tier):
                 W('lock(mem|phys)', 'random', names='multi', b=8193, walks=6 * k, length=30), W('lock(mem|phys)', 'edges', frac=0.02 if q else 1.0),
                 W('lock(mem|phys)', 'edges', lts='deep', names='prefix', frac=0.05 if q else 1.0), W('lock(phys|mem)', 'random', walks=10 * k, length=40)]
     if g == 'hostiledir':
-        return [dict(kind='hostiledir', cfgs='phys;alt(zr,phys);ovl(phys,mem);ovl(mem,phys);alt(zr/zs,ovl(phys,phys))', tspec='Trace_Confine')]
+        return [dict(kind='hostiledir', cfgs='phys;alt(zr,phys);ovl(phys,mem);ovl(mem,phys);alt(zr/zs,ovl(phys,phys))', tspec='Trace_Confine'),
+                dict(kind='rootops', cfgs='mem;phys;alt(zr,mem);alt(zr/zs,phys);ovl(mem,mem);ovl(phys,mem);ovl(mem,phys);ovl(mem,mem,mem);alt(zr,ovl(mem,mem));ovl(ovl(mem,mem),mem);ovlsh(2);ovlsub(2)', tspec='Trace_Confine')]
     if g == 'times':
         T = 'set_time,append_file,create_file,create_dir,remove_file'
         k = 1 if q else 25
@@ -262,6 +263,8 @@ def run_group(g, tier, seed, use_cache=True):
             mc = run_mc('MC_Join_q', 'MC_Join_q')
             mcs['MC_Join_q'] = mc
             s = harness(['hostiledir', '--cfgs', r['cfgs'], '--out', out])
+        elif r['kind'] == 'rootops':
+            s = harness(['rootops', '--cfgs', r['cfgs'], '--out', out])
         elif r['kind'] == 'emb':
             for mname in ('MC_ReadOnly', 'MC_Embedded_q'):
                 mc = run_mc(mname, mname)
